@@ -13,6 +13,7 @@ import (
 
 	"github.com/cockroachdb/errors"
 	"github.com/cockroachdb/errors/errbase"
+	"github.com/cockroachdb/errors/errorspb"
 	"github.com/gogo/protobuf/proto"
 )
 
@@ -41,13 +42,14 @@ const (
 	vB        // foo -> qux
 	v3        // foo -> bar -> baz
 	v4        // foo -> bar -> baz -> zed
+	v2n       // foo -> bar, rename registered but no decoder: received errors stay opaque
 	numVersions
 )
 
-var versionNames = []string{"v0(unknowing)", "v1(foo)", "v2(foo>bar)", "vB(foo>qux)", "v3(foo>bar>baz)", "v4(foo>bar>baz>zed)"}
+var versionNames = []string{"v0(unknowing)", "v1(foo)", "v2(foo>bar)", "vB(foo>qux)", "v3(foo>bar>baz)", "v4(foo>bar>baz>zed)", "v2n(foo>bar,no-decoder)"}
 
 // current type name of each version (-1: none)
-var versionName = []int{-1, gen.MigFoo, gen.MigBar, gen.MigQux, gen.MigBaz, gen.MigZed}
+var versionName = []int{-1, gen.MigFoo, gen.MigBar, gen.MigQux, gen.MigBaz, gen.MigZed, gen.MigBar}
 
 // rename chain of each version as (from, to) pairs
 var versionChain = [][][2]int{
@@ -56,6 +58,7 @@ var versionChain = [][][2]int{
 	{{gen.MigFoo, gen.MigQux}},
 	{{gen.MigFoo, gen.MigBar}, {gen.MigBar, gen.MigBaz}},
 	{{gen.MigFoo, gen.MigBar}, {gen.MigBar, gen.MigBaz}, {gen.MigBaz, gen.MigZed}},
+	{{gen.MigFoo, gen.MigBar}},
 }
 
 var perms3 = [][]int{{0, 1, 2}, {0, 2, 1}, {1, 0, 2}, {1, 2, 0}, {2, 0, 1}, {2, 1, 0}}
@@ -124,11 +127,35 @@ func buildVersion(v, perm int) *migProfile {
 		}
 		// decoders are registered after the migrations, as the documentation requires
 		form, cur := form, cur
-		if form == gen.FormWrap {
+		switch {
+		case v == v2n:
+			// knows the rename and creates such values (so the pointer form's
+			// encoder is there) but registers no decoder: received values stay opaque
+			if form == gen.FormPtr {
+				errors.RegisterLeafEncoder(key, func(_ context.Context, err error) (string, []string, proto.Message) {
+					return err.Error(), nil, &errorspb.StringsPayload{Details: []string{err.Error(), fmt.Sprint(gen.MigCode(err))}}
+				})
+			}
+		case form == gen.FormWrap:
 			errors.RegisterWrapperDecoder(key, func(_ context.Context, cause error, prefix string, _ []string, _ proto.Message) error {
 				return gen.MigNew(cur, form, prefix, cause)
 			})
-		} else {
+		case form == gen.FormPtr:
+			// this form carries a field that is not part of the message: it
+			// needs its custom encoder (registered under the same key) and payload
+			errors.RegisterLeafEncoder(key, func(_ context.Context, err error) (string, []string, proto.Message) {
+				return err.Error(), nil, &errorspb.StringsPayload{Details: []string{err.Error(), fmt.Sprint(gen.MigCode(err))}}
+			})
+			errors.RegisterLeafDecoder(key, func(_ context.Context, _ string, _ []string, payload proto.Message) error {
+				m, ok := payload.(*errorspb.StringsPayload)
+				if !ok || len(m.Details) < 2 {
+					return nil
+				}
+				var code int
+				fmt.Sscan(m.Details[1], &code)
+				return gen.MigNewP(cur, m.Details[0], code)
+			})
+		default:
 			errors.RegisterLeafDecoder(key, func(_ context.Context, msg string, _ []string, _ proto.Message) error {
 				return gen.MigNew(cur, form, msg, nil)
 			})
@@ -168,11 +195,11 @@ func buildVersion(v, perm int) *migProfile {
 var errProbe = fmt.Errorf("probe")
 
 // EnumSize: sender(5) x intermediary(none + 6) x receiver(6) x form(3) x perm(6) x carrier(2)
-func (c17) EnumSize(tier Tier) int { return 5 * 7 * 6 * 3 * (2 * numPerms) * 2 }
+func (c17) EnumSize(tier Tier) int { return 6 * 8 * 7 * 3 * (2 * numPerms) * 2 }
 
 func (c17) TapeFor(i int, tier Tier) []uint32 {
 	vals := []uint32{1}
-	for _, r := range []int{5, 7, 6, 3, 2 * numPerms, 2} {
+	for _, r := range []int{6, 8, 7, 3, 2 * numPerms, 2} {
 		vals = append(vals, uint32(i%r))
 		i /= r
 	}
@@ -191,9 +218,9 @@ func (p c17) Run(t *tape.Tape, tier Tier) *Result {
 	var spec *gen.Node
 	var g *gen.Gen
 	if enumerated {
-		sender = 1 + t.Draw(5)
-		mid = t.Draw(7) - 1
-		receiver = t.Draw(6)
+		sender = 1 + t.Draw(6)
+		mid = t.Draw(8) - 1
+		receiver = t.Draw(7)
 		form = t.Draw(3)
 		perm = t.Draw(2 * numPerms)
 		carrier = t.Draw(2)
@@ -201,7 +228,7 @@ func (p c17) Run(t *tape.Tape, tier Tier) *Result {
 			mids = []int{mid}
 		}
 	} else {
-		sender = 1 + t.Draw(5)
+		sender = 1 + t.Draw(6)
 		for i := t.Draw(3); i > 0; i-- {
 			mids = append(mids, t.Draw(numVersions))
 		}
@@ -264,7 +291,7 @@ func (p c17) Run(t *tape.Tape, tier Tier) *Result {
 	rcv := add(receiver)
 	route = append(route, rcv.ID)
 	// a second sender running another version with the type, for the third-party comparison
-	sender2 := 1 + (sender+t.Draw(4))%5
+	sender2 := 1 + (sender+t.Draw(5))%6
 	s2 := add(sender2)
 	res.Desc.Tree = fmt.Sprintf("%s [form=%s]", spec.Expr(), gen.FormNames[form])
 	res.Desc.Cluster = clusterDesc(sim)
@@ -321,12 +348,16 @@ func (p c17) Run(t *tape.Tape, tier Tier) *Result {
 			if n.Path != migPath {
 				continue
 			}
-			if v == v0 {
+			if v == v0 || v == v2n {
 				if !strings.Contains(n.GoType, "errbase.opaque") {
 					res.add(Violation{Prop: "C17", Oracle: "unknowing-keeps-opaque", Culprit: "decoder", Expected: "opaque", Observed: n.GoType, Where: where})
 				}
 			} else {
 				exp := fmt.Sprintf("%T", gen.MigNew(versionName[v], form, "", errProbe))
+				if n.GoType == exp && form == gen.FormPtr && gen.MigCode(n.Err) != 7 {
+					res.add(Violation{Prop: "C17", Oracle: "payload-of-renamed-type", Culprit: "encoder", Config: "receiver=" + versionNames[v],
+						Expected: "code 7", Observed: fmt.Sprint("code ", gen.MigCode(n.Err)), Where: where})
+				}
 				if n.GoType != exp {
 					res.add(Violation{Prop: "C17", Oracle: "decodes-to-current-type", Culprit: "decoder", Config: "receiver=" + versionNames[v] + " form=" + gen.FormNames[form],
 						Expected: exp, Observed: n.GoType, Where: where})
